@@ -1,5 +1,6 @@
 /- C05: a frame's checksum covers exactly that frame's bytes (frame_cks_exact at Gen.env), by the algorithm the
    pinned schema names; the algorithms themselves are C14. -/
+import FinProto.Obl.SCks
 import FinProto.Obl.SPinnedTypes
 import FinProto.Props.EncLemmas
 import FinProto.Props.ChecksumProofs
@@ -20,5 +21,8 @@ theorem C05_crc32_alg (bs : Bytes) :
     BitVec.ofNat 32 (cksNat .crc32 bs) = crcRef ⟨0x04C11DB7#32, 0xFFFFFFFF#32, 0xFFFFFFFF#32, true, true⟩ bs := by
   rw [← crc32Go_eq_ieee]
   simp [cksNat]
+
+/-- the services' Calc bodies, template-translated from the current source, are the pinned ones (or unrecognised) -/
+theorem C05_calc_bodies : cksAgree Gen.cksDefs pinnedCksDefs = true := gen_cks_agree
 
 end FinProto.Obl
